@@ -164,11 +164,27 @@ def build_value(r):
         return ([r[1], r[1] + 1], {"group": [{"a": 1, "i": 0}, {"a": 1, "i": 1}], "a": 1})
     if k == "list_nogroup":
         return ([1, 2], {"x": 1})
+    if k == "hist_listbins":
+        # bins whose contents are lists: the example bin is a list (not selected by select_bins=int)
+        return (histogram([0, 1, 2], [[1, 2], [3, 4]]), {"x": 1})
+    if k == "perm":
+        # a foreign object with a data field named write (not a method)
+        return Permissions(True, r[1], False)
+    if k == "perm_pair":
+        return (Permissions(True, True, False), {"x": 1})
+    if k == "pair_dup":
+        return (2.5, {"output": {"duplicate_last_bin": r[1]}})
+    if k == "hist_nocsv_dup":
+        return (h1d(), {"output": {"to_csv": False, "duplicate_last_bin": r[1]}})
     if k == "scalar_group":
         return (5, {"group": [{"a": 1}]})
     if k == "scalar_group_empty":
         return (2.5, {"group": []})
     raise AssertionError(r)
+
+
+import collections
+Permissions = collections.namedtuple("Permissions", ["read", "write", "execute"])
 
 
 def f_dbl(v):
@@ -224,10 +240,12 @@ STR_B = [["str", 1], ["str", 2], ["pair", ["str", 3], "plain"], ["pair", ["str",
 
 ELEMENTS = {
     "ToCSV": {"make": lambda: ToCSV(), "A": [["hist1d", "plain"], ["hist1d", None], ["hist2d", "plain"], ["graph"], ["hist1d", "variable"]],
-              "B": GENERIC_B + STR_B + [["hist_nocsv"], ["hist3d", "plain"], ["hist3d", None], ["hist3d", "output_other"]]},
+              "B": GENERIC_B + STR_B + [["hist_nocsv"], ["hist3d", "plain"], ["hist3d", None], ["hist3d", "output_other"],
+                                        ["pair_dup", False], ["pair_dup", True], ["hist_nocsv_dup", False], ["hist_nocsv_dup", True]]},
     "Write": {"make": lambda: Write("out", verbose=False),
               "A": [["text", 1, False, "a"], ["text", 2, True, "a"], ["text", 1, False, "b"], ["text_bare", 1], ["text", 3, True, "c"]],
-              "B": GENERIC_B + [["str_nowrite"], ["written_path", 1], ["written_path", 2], ["hist1d", "plain"]]},
+              "B": GENERIC_B + [["str_nowrite"], ["written_path", 1], ["written_path", 2], ["hist1d", "plain"],
+                                ["perm", True], ["perm", False], ["perm_pair"]]},
     "RenderLaTeX": {"make": lambda: RenderLaTeX("t.tex", template_dir="templates"),
                     "A": [["csvval", 1], ["csvval", 2], ["csvval", 3]],
                     "B": GENERIC_B + STR_B + [["str_filetype", "tex"], ["str_filetype", "pdf"], ["hist1d", "plain"]]},
@@ -240,7 +258,7 @@ ELEMENTS = {
     "HistToGraph": {"make": lambda: HistToGraph(), "A": [["hist1d", "plain"], ["hist1d", None], ["hist2d", "plain"], ["hist1d", "variable"]],
                     "B": GENERIC_B + STR_B + [["hist_nograph"], ["graph"]]},
     "MapBins": {"make": lambda: MapBins(f_dbl, select_bins=int), "A": [["hist1d", "plain"], ["hist2d", "plain"], ["hist1d", None]],
-                "B": GENERIC_B + STR_B + [["hist_strbins"], ["histhist", True, "plain"], ["graph"]]},
+                "B": GENERIC_B + STR_B + [["hist_strbins"], ["histhist", True, "plain"], ["graph"], ["hist_listbins"]]},
     "IterateBins": {"make": lambda: IterateBins(), "A": [["histhist", True, "plain"], ["histhist", False, "empty"], ["histhist", True, None],
                                                            ["histhist", True, "variable"]],
                     "B": GENERIC_B + STR_B + [["hist1d", "plain"], ["hist1d", "variable"], ["hist2d", "combine"], ["hist_strbins"], ["graph"]]},
